@@ -56,9 +56,14 @@ Fixpoint riter (h : nat) (t : ght) : list row :=
   | _, _ => []
   end.
 
+(* has_rows (repo commit c041ccb5709): node.recursive_iter().next().is_some() -- a child left
+   without rows by drain / COLT get is not content; merge, partial_cmp and == skip it *)
+Definition is_nil {A} (l : list A) : bool := match l with [] => true | _ => false end.
+Definition has_rows (h : nat) (t : ght) : bool := negb (is_nil (riter h t)).
+
 (* merge_node / Merge::merge (same code).  Leaf: old_len; extend; len > old_len.
    Inner: for (k, v) in other.children { Occupied => changed |= child.merge_node(v);
-                                          Vacant => insert v; changed = true } *)
+                                          Vacant => changed |= has_rows(&v); insert v } *)
 Fixpoint creplace (ch : list (N * ght)) (k : N) (c : ght) : list (N * ght) :=
   match ch with
   | [] => []
@@ -75,7 +80,7 @@ Fixpoint merge (h : nat) (a b : ght) : ght * bool :=
                      match cget ca (fst kv) with
                      | Some c => let '(c', chg) := merge h' c (snd kv) in
                                  (creplace ca (fst kv) c', changed || chg)
-                     | None => (ca ++ [kv], true)
+                     | None => (ca ++ [kv], changed || has_rows h' (snd kv))
                      end) cb (ca, false) in
       (Inner ca', changed)
   | _, _, _ => (a, false)
@@ -88,7 +93,7 @@ Inductive pres := PSome (c : comparison) | PNone | PPanic.
    after each key: `if self_any_greater && other_any_greater { return None; }`
    (added by repo commit 40ab16e7935; before it the loop ran on and the final match reached
    unreachable!() on incomparable tries) *)
-Fixpoint pcmp_loop (f : ght -> ght -> pres) (ca cb : list (N * ght)) (ks : list N)
+Fixpoint pcmp_loop (hr : ght -> bool) (f : ght -> ght -> pres) (ca cb : list (N * ght)) (ks : list N)
          (self_any_greater other_any_greater : bool) : pres :=
   match ks with
   | [] => match self_any_greater, other_any_greater with
@@ -98,7 +103,7 @@ Fixpoint pcmp_loop (f : ght -> ght -> pres) (ca cb : list (N * ght)) (ks : list 
           | true, true => PPanic                      (* (true, true) => unreachable!() *)
           end
   | k :: ks' =>
-    let next := fun sag oag => if sag && oag then PNone else pcmp_loop f ca cb ks' sag oag in
+    let next := fun sag oag => if sag && oag then PNone else pcmp_loop hr f ca cb ks' sag oag in
     match cget ca k, cget cb k with
     | Some x, Some y =>
       match f x y with                                (* self_value.partial_cmp(other_value)? *)
@@ -108,13 +113,11 @@ Fixpoint pcmp_loop (f : ght -> ght -> pres) (ca cb : list (N * ght)) (ks : list 
       | PNone => PNone                                (* `?` : early return None *)
       | PPanic => PPanic
       end
-    | Some _, None => next true other_any_greater
-    | None, Some _ => next self_any_greater true
+    | Some x, None => next (self_any_greater || hr x) other_any_greater       (* |= has_rows(self_value) *)
+    | None, Some y => next self_any_greater (other_any_greater || hr y)
     | None, None => PPanic                            (* unreachable!() *)
     end
   end.
-
-Definition is_nil {A} (l : list A) : bool := match l with [] => true | _ => false end.
 
 Fixpoint pcmp (h : nat) (a b : ght) : pres :=
   match h, a, b with
@@ -126,23 +129,28 @@ Fixpoint pcmp (h : nat) (a b : ght) : pres :=
     end
   | S h', Inner ca, Inner cb =>
     if is_nil ca && is_nil cb then PSome Eq
-    else pcmp_loop (pcmp h') ca cb (map fst ca ++ map fst cb) false false
+    else pcmp_loop (has_rows h') (pcmp h') ca cb (map fst ca ++ map fst cb) false false
   | _, _, _ => PPanic
   end.
 
-(* PartialEq: leaf = derived (elements ==; the `forced` flag is only set by COLT force, not
-   modelled); inner: children.len() equal and every child equal to the other's child *)
+(* PartialEq: leaf: elements == (the `forced` flag is ignored since beb89003dcf; not modelled
+   here); inner (since c041ccb5709): children without rows are not content --
+     live(t) = t.iter().filter(|head| t.get(head).is_some_and(has_rows)).count();
+     live(self) == live(other), and every child of self that has rows == other's child *)
+Definition live (h : nat) (ch : list (N * ght)) : nat :=
+  length (filter (fun kc => match cget ch (fst kc) with Some c => has_rows h c | None => false end) ch).
 Fixpoint peq (h : nat) (a b : ght) : bool :=
   match h, a, b with
   | 0, Leaf ra, Leaf rb => hs_eq ra rb
   | S h', Inner ca, Inner cb =>
-    if negb (Nat.eqb (length ca) (length cb)) then false
-    else forallb (fun kc => match cget cb (fst kc) with
+    if negb (Nat.eqb (live h' ca) (live h' cb)) then false
+    else forallb (fun kc => match cget ca (fst kc) with
                             | None => false
-                            | Some o => match cget ca (fst kc) with
-                                        | None => false
-                                        | Some t => peq h' t o
-                                        end
+                            | Some t => if negb (has_rows h' t) then true
+                                        else match cget cb (fst kc) with
+                                             | Some o => peq h' t o
+                                             | None => false
+                                             end
                             end) ca
   | _, _, _ => false
   end.
